@@ -158,7 +158,7 @@ RESOLVER = {
             "random": [("wild", 3000, 30000), ("general", 1500, 15000), ("multi", 1000, 10000), ("redef", 500, 5000),
                        ("convert", 500, 5000)]},
     "C07": {"inv": ["C07"], "reps": (25, 100), "family": "C07", "random": [("general", 300, 3000)], "model": (200, 2000)},
-    "C08": {"inv": ["C08"], "reps": (3, 6), "family": "C08", "random": [("redef", 3000, 40000)]},
+    "C08": {"inv": ["C08", "C01", "C04"], "minv": ["C08"], "reps": (3, 6), "family": "C08", "random": [("redef", 3000, 40000)]},
     "C13": {"inv": ["C13"], "reps": (2, 4), "family": "C13",
             "random": [("general", 2500, 25000), ("nosub", 1500, 15000), ("multi", 1000, 10000)]},
 }
@@ -204,7 +204,10 @@ def real_observations(trace_path):
             kind = "redef" if e["ok"] else ("unsat" if e["detail"].startswith("unsat") else "redeferr")
             real.setdefault(cur["sid"], set()).add(canon(kind, [], e["inputs"], 0))
         elif e["ev"] == "ret" and e["phase"] == 1:
-            real.setdefault(cur["sid"], set()).add(canon(e["kind"], cur["log"], [], e["valtok"] if e["kind"] == "ok" else 0))
+            kind = e["kind"]
+            if kind == "nilerr":  # typed-nil error value: the model does not distinguish error shapes
+                kind = "targeterr" if cur["log"] and cur["log"][-1][0] == 0 else "converr"
+            real.setdefault(cur["sid"], set()).add(canon(kind, cur["log"], [], e["valtok"] if e["kind"] == "ok" else 0))
     return real
 
 
@@ -264,7 +267,7 @@ def run_resolver(prop, tier, seed, keep=False):
         consts = {"ScnFile": '"scn_model.json"', "Bugs": "{}", "Scenarios": "<- AllScenarios",
                   "Family": '"%s"' % (fam or "none"), "Size": "1" if ti == 0 else "2"}
         mres, model, famscn = model_stage(w, prop, "MC_Family.tla", "MC_%s.cfg" % prop,
-                                          ["M_" + i for i in spec["inv"]], consts, ev)
+                                          ["M_" + i for i in spec.get("minv", spec["inv"])], consts, ev)
         allscn += famscn
         ev.cov["exhaustive"] = bool(fam)
         ev.cov["family"] = {"name": fam, "scenarios": len(famscn)}
